@@ -34,17 +34,17 @@ var (
 
 // owning slice of []int fields, keyed by "StructType.Field"
 var refListOwner = map[string]string{
-	"DirectiveList.Refs":                   "Directives",
-	"ArgumentList.Refs":                    "Arguments",
-	"VariableDefinitionList.Refs":          "VariableDefinitions",
-	"FieldDefinitionList.Refs":             "FieldDefinitions",
-	"InputValueDefinitionList.Refs":        "InputValueDefinitions",
-	"EnumValueDefinitionList.Refs":         "EnumValueDefinitions",
-	"TypeList.Refs":                        "Types",
-	"RootOperationTypeDefinitionList.Refs": "RootOperationTypeDefinitions",
-	"SelectionSet.SelectionRefs":           "Selections",
-	"ListValue.Refs":                       "Values",
-	"ObjectValue.Refs":                     "ObjectFields",
+	"DirectiveList.Refs":                                     "Directives",
+	"ArgumentList.Refs":                                      "Arguments",
+	"VariableDefinitionList.Refs":                            "VariableDefinitions",
+	"FieldDefinitionList.Refs":                               "FieldDefinitions",
+	"InputValueDefinitionList.Refs":                          "InputValueDefinitions",
+	"EnumValueDefinitionList.Refs":                           "EnumValueDefinitions",
+	"TypeList.Refs":                                          "Types",
+	"RootOperationTypeDefinitionList.Refs":                   "RootOperationTypeDefinitions",
+	"SelectionSet.SelectionRefs":                             "Selections",
+	"ListValue.Refs":                                         "Values",
+	"ObjectValue.Refs":                                       "ObjectFields",
 	"InterfaceTypeDefinition.ImplementedByObjectDefinitions": "ObjectTypeDefinitions",
 }
 
